@@ -118,7 +118,7 @@ EventFaithful(e, log) ==
     \E i \in 1..Len(log) :
         LET l == log[i] IN
         /\ l.by = e.by \/ (l.ik # "" /\ l.ik = e.ik)
-        /\ CASE e.type = "committed" -> l.kind = "tx" /\ l.txid = e.txid /\ l.postings = e.postings
+        /\ CASE e.type = "committed" -> l.kind = "tx" /\ l.txid = e.txid /\ l.postings = e.postings /\ l.mval = e.mval
              [] e.type = "reverted"  -> l.kind = "rev" /\ l.txid = e.txid /\ l.target = e.target
              [] e.type = "saved"     -> l.kind = "set" /\ l.target = e.target /\ l.tacct = e.tacct
              [] e.type = "deleted"   -> l.kind = "del" /\ l.target = e.target /\ l.tacct = e.tacct
